@@ -151,7 +151,6 @@ func verif_CloseClient(c *Controller, name string, q string) {
 	}
 }
 
-
 // A NAT-hole session is created, and the proxy owner notified, only for a
 // request signed with the proxy's secret key whose visitor user is allowed;
 // whatever was inserted into the session table is removed again.
